@@ -3,7 +3,7 @@
    rename history stays readable (PrevIds cannot panic).
    Well-formed: every document is a mapping with a kind and a metadata mapping holding a non-null scalar name,
    neither empty nor containing ',' (RenameProofs.wf_node); directive strings contain no ','. *)
-From KV Require Import Res.Pipeline Res.PipelineProofs Res.PipelineFrameProofs Res.RenameProofs Res.C03Facts
+From KV Require Import Res.Pipeline Res.PipelineProofs Res.PipelineFrameProofs Res.PipelinePermProofs Res.RenameProofs Res.C03Facts
                        Res.NameRefProofs Res.CsvFacts Base.StrOrder.
 From KV Require Import Yaml.FieldSpecSpec Yaml.FieldSpecProofs.
 From KV Require Res.Labels Res.LabelsDefaults Res.Namespace Res.Generators Res.Hash.
@@ -319,3 +319,228 @@ Proof.
   - apply (distinct_ids_renamed (fun v => v ++ s) gen_suffix_skip); [intros a b; apply app_inj_r|].
     eapply Forall2_impl2; [|exact HF]. intros a b [_ Hr]. exact Hr.
 Qed.
+
+(* ----- labels / annotations ----- *)
+
+Lemma common_labels_in_tbl : incl gen_common_labels_fs label_tbl.
+Proof. intros x Hx. unfold label_tbl. apply in_or_app. left. exact Hx. Qed.
+Lemma template_labels_in_tbl : incl gen_template_labels_fs label_tbl.
+Proof. intros x Hx. unfold label_tbl. apply in_or_app. right. apply in_or_app. left. exact Hx. Qed.
+Lemma common_annos_in_tbl : incl gen_common_annotations_fs label_tbl.
+Proof. intros x Hx. unfold label_tbl. do 2 (apply in_or_app; right). apply in_or_app. left. exact Hx. Qed.
+Lemma metadata_labels_in_tbl : In Labels.metadata_labels_fs label_tbl.
+Proof. unfold label_tbl. do 3 (apply in_or_app; right). left. reflexivity. Qed.
+
+Lemma label_fs_in_tbl e fss :
+  Labels.ld_fields e = [] -> Labels.label_fs LabelsDefaults.default_tc e = Ok fss -> incl fss label_tbl.
+Proof.
+  intros Hf. unfold Labels.label_fs. rewrite Hf. cbn [LabelsDefaults.default_tc Labels.tc_labels Labels.merge_all bind
+    Labels.tc_common_labels Labels.tc_template_labels].
+  destruct (Labels.ld_selectors e).
+  - intros H. apply merge_all_incl in H. intros x Hx. apply H in Hx. cbn [app] in Hx. apply common_labels_in_tbl; exact Hx.
+  - destruct (Labels.ld_templates e).
+    + destruct (Labels.merge_all [] gen_template_labels_fs) as [f1| | |] eqn:E; cbn [bind]; try discriminate.
+      intros H. apply merge_one_incl in H. apply merge_all_incl in E. cbn [app] in E.
+      intros x Hx. apply H in Hx. apply in_app_or in Hx as [Hx|[<-|[]]]; [apply template_labels_in_tbl; auto|apply metadata_labels_in_tbl].
+    + cbn [bind]. intros H. apply merge_one_incl in H. intros x Hx. apply H in Hx. cbn [app] in Hx.
+      destruct Hx as [<-|[]]. apply metadata_labels_in_tbl.
+Qed.
+
+Lemma label_transformers_in_tbl d lts :
+  no_custom_fields d ->
+  Labels.label_transformers LabelsDefaults.default_tc (label_dirs d) = Ok lts ->
+  Forall (fun pf => incl (snd pf) label_tbl) lts.
+Proof.
+  intros Hn. unfold Labels.label_transformers, label_dirs. cbn [Labels.d_labels Labels.d_common_labels].
+  assert (G : forall l0,
+    (do l <- mapM (fun e => do fss <- Labels.label_fs LabelsDefaults.default_tc e; Ok (Labels.ld_pairs e, fss)) (pd_labels d);
+     Ok (l ++ [(pd_common_labels d, Labels.tc_common_labels LabelsDefaults.default_tc)])%list) = Ok l0 ->
+    Forall (fun pf : pairs * list fieldspec => incl (snd pf) label_tbl) l0).
+  { intros l0 H. destruct (mapM _ (pd_labels d)) as [l| | |] eqn:E; cbn [bind] in H; try discriminate. inv H.
+    apply Forall_app. split; [|constructor; [exact common_labels_in_tbl|constructor]].
+    apply mapM_Forall2P in E. unfold no_custom_fields in Hn.
+    clear -E Hn. induction E as [|e pf te tl He _ IH]; [constructor|].
+    inversion Hn; subst. constructor; [|auto].
+    destruct (Labels.label_fs LabelsDefaults.default_tc e) as [fss| | |] eqn:EF; cbn [bind] in He; try discriminate.
+    inv He. cbn [snd]. eapply label_fs_in_tbl; eauto. }
+  destruct (pd_labels d) eqn:EL; destruct (pd_common_labels d) eqn:EC; intros H;
+    try (apply G; rewrite ?EL, ?EC; exact H).
+  inv H. constructor.
+Qed.
+
+Lemma drop_empties_W m : Forall W m -> drop_empties m = m.
+Proof.
+  induction 1 as [|r t Hr _ IH]; [reflexivity|]. unfold drop_empties in *. cbn.
+  rewrite (W_not_empty _ Hr). cbn. now rewrite IH.
+Qed.
+
+Lemma Forall2_same_identity_trans a b c :
+  Forall2 same_identity a b -> Forall2 same_identity b c -> Forall2 same_identity a c.
+Proof.
+  intros H. revert c. induction H; intros c Hc; inversion Hc; subst; constructor; eauto using same_identity_trans.
+Qed.
+
+Lemma Forall2_same_identity_refl m : Forall2 same_identity m m.
+Proof. induction m; constructor; auto using same_identity_refl. Qed.
+
+Section LabelsW.
+  Variable nonstr : string -> bool.
+
+  Lemma label_transform_W labels fss m m' :
+    incl fss label_tbl -> Forall W m -> label_transform nonstr labels fss m = Ok m' ->
+    Forall W m' /\ Forall2 same_identity m m'.
+  Proof.
+    intros Hi HW. unfold label_transform. destruct labels; [intros H; inv H; split; [exact HW|apply Forall2_same_identity_refl]|].
+    intros H. unfold map_nodes in H. apply mapM_Forall2P in H.
+    assert (HF : Forall2 (fun r r' => W r' /\ same_identity r r') m m').
+    { clear -H HW Hi. induction H as [|r r' t t' Hr _ IH]; [constructor|].
+      inversion HW as [|? ? Wr Wt]; subst. constructor; [|auto].
+      cbv beta in Hr. destruct (Labels.label_filter nonstr _ fss (r_node r)) as [n'| | |] eqn:E; cbn [bind] in Hr; try discriminate.
+      inv Hr. unfold Labels.label_filter in E. apply W_same_idkey; [exact Wr|]. eapply keys_pass_idkey; eauto. }
+    split.
+    - clear -HF. induction HF as [|? ? ? ? [Hw _]]; constructor; auto.
+    - eapply Forall2_impl2; [|exact HF]. intros a b [_ Hs]. exact Hs.
+  Qed.
+
+  Lemma label_transforms_W lts : forall m m',
+    Forall (fun pf => incl (snd pf) label_tbl) lts -> Forall W m ->
+    label_transforms nonstr lts m = Ok m' -> Forall W m' /\ Forall2 same_identity m m'.
+  Proof.
+    induction lts as [|[p fss] t IH]; intros m m' Hl HW H; cbn [label_transforms] in H.
+    - inv H. split; [exact HW|apply Forall2_same_identity_refl].
+    - inversion Hl as [|? ? H1 H2]; subst. cbn [snd] in H1.
+      destruct (label_transform nonstr p fss m) as [m1| | |] eqn:E; cbn [bind] in H; try discriminate.
+      destruct (label_transform_W _ _ _ _ H1 HW E) as [W1 S1].
+      rewrite (drop_empties_W _ W1) in H. destruct (IH _ _ H2 W1 H) as [W2 S2].
+      split; [exact W2|eapply Forall2_same_identity_trans; eauto].
+  Qed.
+End LabelsW.
+
+(* ----- generators ----- *)
+
+Definition gen_good (g : pgen) : Prop := good (pg_name g) = true /\ no_char ","%char (pg_ns g) = true.
+
+Lemma gen_resource_W secret g r : gen_good g -> gen_resource secret g = Ok r -> W r.
+Proof.
+  intros [Hn Hs] H. unfold gen_resource in H. destruct (gen_node secret g) as [n| | |] eqn:EN; cbn [bind] in H; try discriminate.
+  inv H. split; [split; [exact I|]|constructor]. cbn [r_node].
+  unfold gen_node in EN. destruct (String.eqb (pg_name g) ""); [discriminate|].
+  destruct (mapM Generators.parse_literal (pg_literals g)) as [kvs| | |]; cbn [bind] in EN; try discriminate.
+  destruct (Generators.validated_map kvs []) as [m| | |]; cbn [bind] in EN; try discriminate.
+  destruct (negb secret && _); [discriminate|]. inv EN.
+  eexists _, _, TStr, SPlain, (pg_name g), (str_node (if secret then "Secret" else "ConfigMap")).
+  split; [reflexivity|]. split; [reflexivity|]. split; [reflexivity|]. split; [discriminate|]. split; [exact Hn|].
+  split; [reflexivity|]. split; [destruct secret; reflexivity|].
+  unfold get_namespace, meta_string, get_meta. cbn [find_field String.eqb Ascii.eqb Bool.eqb app nil_or_empty].
+  destruct (String.eqb (pg_ns g) "") eqn:E.
+  - cbn [app find_field String.eqb Ascii.eqb Bool.eqb].
+    destruct (meta_map_field "labels" _) as [|[k1 v1] t1] eqn:E1;
+      [|unfold meta_map_field in E1; destruct (if pg_has_opts g then pg_labels g else []); inv E1; cbn].
+    all: destruct (meta_map_field "annotations" _) as [|[k2 v2] t2] eqn:E2;
+      [|unfold meta_map_field in E2; destruct (if pg_has_opts g then pg_annos g else []); inv E2; cbn]; reflexivity.
+  - cbn. apply String.eqb_neq in E. destruct (pg_ns g); [congruence|exact Hs].
+Qed.
+
+(* ================= the tree-level invariant ================= *)
+
+Definition Inv (m : list resource) : Prop := Forall W m /\ distinct_ids m.
+
+(* the class: well-formed documents, no namespace directive, no custom label fields, generators that create
+   with good names, comma-free prefixes and suffixes *)
+Definition dirs_wf (d : pdirs) : Prop :=
+  pd_ns d = "" /\ no_custom_fields d /\ gens_create d /\
+  Forall gen_good (pd_cmgens d) /\ Forall gen_good (pd_secgens d) /\
+  no_char ","%char (pd_prefix d) = true /\ no_char ","%char (pd_suffix d) = true.
+
+Inductive tree_wf : ptree -> Prop :=
+| wf_file docs : Forall wf_node docs -> tree_wf (PFile docs)
+| wf_dir n d ents : dirs_wf d -> Forall tree_wf ents -> tree_wf (PDir n d ents).
+
+Section Acc.
+  Variable nonstr : string -> bool.
+
+  Lemma run_gens_Inv secret gens : forall m m',
+    Forall creates gens -> Forall gen_good gens -> Inv m -> run_gens nonstr secret gens m = Ok m' -> Inv m'.
+  Proof.
+    induction gens as [|g t IH]; intros m m' Hc Hg HI H; cbn [run_gens] in H; [inv H; exact HI|].
+    inversion Hc as [|? ? Hc1 Hc2]; subst. inversion Hg as [|? ? Hg1 Hg2]; subst.
+    destruct (gen_resource secret g) as [r| | |] eqn:EG; cbn [bind] in H; try discriminate.
+    destruct (absorb nonstr m _ r) as [m1| | |] eqn:EA; cbn [bind] in H; try discriminate.
+    eapply IH; [exact Hc2|exact Hg2| |exact H].
+    destruct HI as [HW Hd]. unfold absorb in EA.
+    destruct (matching_any (cur_id cs r) 0 m) as [ms| | |]; cbn [bind] in EA; try discriminate.
+    destruct (create_action (List.length ms) _ Hc1) as [E|E]; rewrite E in EA; [|discriminate].
+    apply append_one_spec in EA as [-> Hn]. split.
+    - apply Forall_app. split; [exact HW|constructor; [eapply gen_resource_W; eauto|constructor]].
+    - apply distinct_ids_snoc. split; assumption.
+  Qed.
+
+  Lemma run_generators_Inv d m m' :
+    dirs_wf d -> Inv m -> run_generators nonstr d m = Ok m' -> Inv m'.
+  Proof.
+    intros (_ & _ & [Hc1 Hc2] & Hg1 & Hg2 & _). unfold run_generators. generalize gen_generator_order. intros ks. revert m m'.
+    induction ks as [|k t IH]; intros m m' HI H; cbn [run_generator_kinds] in H; [inv H; exact HI|].
+    match type of H with bind ?E _ = _ => destruct E as [mm| | |] eqn:E1 end; cbn [bind] in H; try discriminate.
+    eapply IH; [|exact H].
+    destruct (String.eqb k "ConfigMapGenerator"); [exact (run_gens_Inv _ _ _ _ Hc1 Hg1 HI E1)|].
+    destruct (String.eqb k "SecretGenerator"); [exact (run_gens_Inv _ _ _ _ Hc2 Hg2 HI E1)|].
+    inv E1. exact HI.
+  Qed.
+
+  Lemma run_kind_Inv k d m m' : dirs_wf d -> Inv m -> run_kind nonstr k d m = Ok m' -> Inv m'.
+  Proof.
+    intros (Hns & Hn & _ & _ & _ & Hp & Hs) [HW Hd]. unfold run_kind. rewrite Hns.
+    destruct (String.eqb k "NamespaceTransformer"); [cbn; intros H; inv H; split; assumption|].
+    destruct (String.eqb k "PrefixTransformer").
+    { intros H. destruct (prefix_transform_W _ _ _ Hp HW H) as [W' D']. split; auto. }
+    destruct (String.eqb k "SuffixTransformer").
+    { intros H. destruct (suffix_transform_W _ _ _ Hs HW H) as [W' D']. split; auto. }
+    destruct (String.eqb k "LabelTransformer").
+    { destruct (Labels.label_transformers LabelsDefaults.default_tc (label_dirs d)) as [lts| | |] eqn:E; cbn [bind]; try discriminate.
+      intros H. destruct (label_transforms_W nonstr lts _ _ (label_transformers_in_tbl _ _ Hn E) HW H) as [W' S'].
+      split; [exact W'|eapply Forall2_same_identity_ids; eauto]. }
+    destruct (String.eqb k "AnnotationsTransformer").
+    { intros H. destruct (label_transform_W nonstr _ _ _ _ common_annos_in_tbl HW H) as [W' S'].
+      split; [exact W'|eapply Forall2_same_identity_ids; eauto]. }
+    intros H; inv H; split; assumption.
+  Qed.
+
+  Lemma run_order_Inv ks d : forall m m', dirs_wf d -> Inv m -> run_order nonstr ks d m = Ok m' -> Inv m'.
+  Proof.
+    induction ks as [|k t IH]; intros m m' Hd HI H; cbn [run_order] in H; [inv H; exact HI|].
+    destruct (run_kind nonstr k d m) as [m1| | |] eqn:E; cbn [bind] in H; try discriminate.
+    pose proof (run_kind_Inv _ _ _ _ Hd HI E) as HI1. rewrite (drop_empties_W _ (proj1 HI1)) in H. eauto.
+  Qed.
+
+  Lemma Forall_concat {A} (P : A -> Prop) (l : list (list A)) : Forall (Forall P) l -> Forall P (List.concat l).
+  Proof. induction 1; cbn; [constructor|apply Forall_app; auto]. Qed.
+
+  (* what a kustomization of well-formed documents accumulates: well-formed resources with pairwise distinct ids *)
+  Theorem accumulate_Inv t : forall m, tree_wf t -> accumulate nonstr t = Ok m -> Inv m.
+  Proof.
+    induction t as [docs|n d ents IH] using ptree_ind'; intros m Hwf H.
+    - inversion Hwf as [? Hd|]; subst. cbn [accumulate] in H. apply append_all_spec in H as [-> Hdist]. cbn [app].
+      split; [|apply Hdist; exact I]. clear -Hd. induction Hd; cbn; constructor; auto using W_load.
+    - inversion Hwf as [|? ? ? Hd He]; subst. rewrite accumulate_dir in H.
+      destruct (is_empty_kust d ents); [discriminate|].
+      destruct (acc_list (accumulate nonstr) ents []) as [m0| | |] eqn:E0; cbn [bind] in H; try discriminate.
+      destruct (run_generators nonstr d m0) as [m1| | |] eqn:E1; cbn [bind] in H; try discriminate.
+      assert (HI0 : Inv m0).
+      { destruct (PipelinePermProofs.acc_list_char _ _ _ _ E0) as (subs & F0 & -> & Hd0). cbn [app] in *.
+        split; [|apply Hd0; exact I]. apply Forall_concat.
+        clear -IH He F0. revert subs F0. induction ents as [|e t IHe]; intros subs F0; inv F0; [constructor|].
+        inversion IH; subst. inversion He; subst. constructor; [|auto].
+        match goal with Hx : forall m, tree_wf e -> _ |- _ => destruct (Hx _ ltac:(assumption) ltac:(eassumption)) as [Wx _]; exact Wx end. }
+      pose proof (run_generators_Inv _ _ _ Hd HI0 E1) as HI1.
+      unfold run_transformers in H.
+      destruct (Labels.label_transformers _ _); cbn [bind] in H; try discriminate.
+      eapply run_order_Inv; eauto.
+  Qed.
+
+  (* PIPE_wrap for well-formed trees: no hypothesis on the accumulated ids *)
+  Theorem build_wrap_wf name o n d ents :
+    tree_wf (PDir n d ents) -> build nonstr o (wrap name (PDir n d ents)) = build nonstr o (PDir n d ents).
+  Proof.
+    intros Hwf. apply build_wrap; [eauto|]. intros m H. exact (proj2 (accumulate_Inv _ _ Hwf H)).
+  Qed.
+End Acc.
